@@ -307,7 +307,7 @@ fn iter_buf() {
     go_iter_n(3, 3, S_BUF, E_ALL, wit_buf, 2);
 }
 
-// @verif family=SEQ thorough=C03,C04,C05,C10,C11 timeout=1200
+// @verif family=SEQ thorough=C03,C04,C05,C10,C11 timeout=1200 optcov=mid-way
 // @bounds kind=ConIterOfIter<usize,Probe> len<=3, all size hints; prefix<=3 next(); buffered_iter(3) 1-2 pulls partly consumed; single/len query; end in {drop, into_seq_iter all/partly}
 #[kani::proof]
 #[kani::unwind(7)]
